@@ -1,9 +1,15 @@
-(* C10 - reference origins are exactly the references written in schema-known values
-   (partial: self gating, the merge of origins across one-of alternatives and the final ordering
-   are modelled and proved; the walk over expressions is decided on the implementation against
-   generator ground truth). *)
+(* C10 - reference origins are exactly the references written in schema-known values.
+   Models: Model/Origins.v (the value-level descent: every constraint kind x every expression kind,
+   operators, templates, conditionals, for expressions, function arguments, object keys, one-of
+   merging, OriginForTarget on object attributes), Model/Collect.v (self gating, merge, ordering);
+   both compared with the implementation on every run (hook VerifExprReferenceOrigins).
+   PARTIAL: the body-level loop over attributes and blocks (unknown attributes skipped, dependent
+   schemas, implied/direct origins) is not modelled; it is decided on the implementation against
+   generator ground truth.  "Exactly one" is proved as soundness + completeness on the fragment
+   without for expressions; absence of duplicates is decided by the ground-truth oracle. *)
 From Coq Require Import String List ZArith Bool Permutation.
-From HV Require Import Base.Pos Model.Addr Model.Ref Model.Collect Proofs.CollectProofs.
+From HV Require Import Base.Sexp Base.Pos Model.Addr Model.Schema Model.Ref Model.Collect Model.Origins Proofs.CollectProofs Proofs.OriginsProofs.
+Import ListNotations.
 
 (* self.* references yield an origin only where the body enables them *)
 Theorem C10_self_references_gated : forall addr r cs, traversal_to_local_origin addr true r cs false = None.
@@ -31,3 +37,38 @@ Print Assumptions C10_distinct_reference_is_kept.
 Theorem C10_ordering_adds_and_drops_nothing : forall l, Permutation l (sort_origins l).
 Proof. exact sort_origins_perm. Qed.
 Print Assumptions C10_ordering_adds_and_drops_nothing.
+
+(* every origin of a value - under any constraint, at any depth of lists, sets, tuples, maps, objects,
+   one-of alternatives, templates, operators, conditionals, for expressions, call arguments - is a
+   reference written in that value: it has the address the text denotes and exactly its range, and a
+   self.* reference only where the body enables them; the only other origins are the declared path
+   origins of literal object keys *)
+Theorem C10_every_origin_is_a_written_reference : forall conv allow_self funcs origin_for_of c e o,
+  In o (cons_origins conv allow_self funcs origin_for_of c e) ->
+  (exists tr, In tr (written e) /\ from_trav allow_self o tr) \/ path_at_key e o.
+Proof. exact cons_origins_sound. Qed.
+Print Assumptions C10_every_origin_is_a_written_reference.
+
+(* places the constraint reserves for literals, keywords or type names yield nothing *)
+Theorem C10_literal_places_yield_nothing : forall conv allow_self funcs origin_for_of c e,
+  match c with CLitType _ _ | CLitValue _ _ _ | CKeyword _ _ | CTypeDecl => True | _ => False end ->
+  cons_origins conv allow_self funcs origin_for_of c e = [].
+Proof. exact literal_places_yield_nothing. Qed.
+Print Assumptions C10_literal_places_yield_nothing.
+
+(* text that is not a reference yields no reference origin *)
+Theorem C10_no_reference_no_origin : forall conv allow_self funcs origin_for_of c e o,
+  written e = [] -> In o (cons_origins conv allow_self funcs origin_for_of c e) ->
+  match o with OLocal _ _ _ => False | _ => True end.
+Proof. exact no_reference_no_origin. Qed.
+Print Assumptions C10_no_reference_no_origin.
+
+(* completeness where an arbitrary expression is admitted: every reference written under operators
+   whose result fits, templates, conditionals, parentheses, arguments of known functions within their
+   arity, list/set literals under list/set types and map literals under map types - at any depth -
+   yields an origin with its address and range (for expressions are outside this fragment) *)
+Theorem C10_every_written_reference_yields_an_origin : forall conv allow_self funcs e t tr,
+  covered conv funcs t e = true -> In tr (leaves e) -> collectable allow_self tr ->
+  has_origin allow_self (any_origins conv allow_self funcs t e) tr.
+Proof. exact any_origins_complete. Qed.
+Print Assumptions C10_every_written_reference_yields_an_origin.
